@@ -163,6 +163,11 @@ def make_app_classes():
                            dl=len(value.data or b''), ml=len(value.metadata or b''))
             if self.on_next_hook is not None:
                 self.on_next_hook(self, pid, is_complete)
+            k = getattr(self, 'auto_request', 0)
+            if k and self.subscription is not None and not is_complete and (self.w.opts.get('late_actions') or not (self.cancelled or self.terminated)):
+                # the common pattern of replenishing credit from inside on_next (what CollectorSubscriber does)
+                self.w.rec.log(self.ep, 'app_request_n', iid=self.iid, n=k, role=self.role, x=1)   # x=1: issued from inside on_next
+                self.subscription.request(k)
             if 'on_next' in self.raise_in:
                 raise RuntimeError('app: on_next raised')
 
@@ -1060,6 +1065,7 @@ class World:
         if n0 is not None:
             req.initial_request_n(n0)
         sub = self.RecSubscriber(self, ep, pid, 'req', sub_raise_in)
+        sub.auto_request = (policy or {}).get('auto_request', 0)
         it['sub'] = sub
         if subscribe:
             self.subscribe(pid)
@@ -1086,6 +1092,7 @@ class World:
         if n0 is not None:
             req.initial_request_n(n0)
         sub = self.RecSubscriber(self, ep, pid, 'req')
+        sub.auto_request = (policy or {}).get('auto_request', 0)
         it['sub'] = sub
         if subscribe:
             self.subscribe(pid)
